@@ -78,7 +78,10 @@ Laws == CheckLaws => \A ci \in 1..Len(Cases) :
          /\ (c.entry = "canon" /\ c.g.set = {}) =>
                NoWS(r.out) /\ SortedTree(Meaning(o, r.out)) /\ MinimalStrings(r.out)
 
+\* (a case whose output holds a number the specification does not spell by itself - an
+\* exponent next to the limits of float64 - is not emitted: C10 decides those)
 EmitInv == EmitCases => \A ci \in 1..Len(Cases) :
     LET r == Res(Cases[ci]) IN
-    PrintT(ToJson(<<bytes, Cases[ci].entry, Cases[ci].g, r.ok, r.out>>))
+    (r.ok => AllDecidable(Effective(Cases[ci].entry, Cases[ci].g), bytes, MaxD)) =>
+        PrintT(ToJson(<<bytes, Cases[ci].entry, Cases[ci].g, r.ok, r.out>>))
 =============================================================================
